@@ -15,7 +15,10 @@ L3 == << MapV(<< <<A, MapV(<< <<A, MapV(<< <<A, IntV(1)>>, <<B, IntV(2)>> >>)>>,
          MapV(<< <<A, MapV(<< <<A, IntV(2)>> >>)>> >>),
          MapV(<< <<A, MapV(<< <<A, SeqV(<<MapV(<< <<A, IntV(1)>> >>), IntV(2)>>)>> >>)>> >>),
          MapV(<< <<A, MapV(<< <<A, SeqV(<<MapV(<< <<B, IntV(2)>> >>)>>)>>, <<B, MapV(<<>>)>> >>)>> >>) >>
-Docs == L2 \o L3 \o << Null >>       \* a null operand: `x * null` is x, `null * m` is m
+\* keys holding `*`: in a document they are characters, not patterns - merging them in touches no other key
+G == <<"a", "*">>  AB == <<"a", "b">>  STAR == <<"*">>
+LG == << MapV(<< <<G, IntV(3)>> >>), MapV(<< <<A, IntV(1)>>, <<AB, IntV(2)>>, <<G, MapV(<< <<A, IntV(1)>> >>)>> >>), MapV(<< <<STAR, IntV(3)>>, <<A, MapV(<< <<STAR, IntV(5)>> >>)>> >>) >>
+Docs == L2 \o L3 \o << Null >> \o LG      \* a null operand: `x * null` is x, `null * m` is m
 FlagSeq == << [app |-> FALSE, deep |-> FALSE, exist |-> FALSE, new |-> FALSE], [app |-> TRUE, deep |-> FALSE, exist |-> FALSE, new |-> FALSE],
               [app |-> FALSE, deep |-> TRUE, exist |-> FALSE, new |-> FALSE], [app |-> FALSE, deep |-> FALSE, exist |-> TRUE, new |-> FALSE],
               [app |-> FALSE, deep |-> FALSE, exist |-> FALSE, new |-> TRUE], [app |-> TRUE, deep |-> TRUE, exist |-> FALSE, new |-> FALSE],
